@@ -439,7 +439,9 @@ class WSGITask(Task):
                         "a WSGI application (see PEP 3333)" % k
                     )
 
-            self.response_headers.extend(headers)
+            # keep copies of what has just been validated, not the
+            # application's own (possibly mutable) header items
+            self.response_headers.extend([(k, v) for k, v in headers])
 
             # Return a method used to write the response data.
             return self.write
